@@ -32,6 +32,8 @@ Nilco(l, r) == [k |-> "nilco", l |-> l, r |-> r]
 Idx(e, i) == [k |-> "idx", e |-> e, i |-> i]
 Member(e, n) == [k |-> "member", e |-> e, n |-> n]
 CallE(e, a) == [k |-> "call", e |-> e, a |-> a]
+Call0(e) == [k |-> "call0", e |-> e]                 \* e()   : a call without arguments
+EList == [k |-> "elist"]                              \* []    : the empty list literal
 Slice(e, lo, hi) == [k |-> "slice", e |-> e, lo |-> lo, hi |-> hi]
 Slice3(e, lo, hi, c) == [k |-> "slice3", e |-> e, lo |-> lo, hi |-> hi, c |-> c]
 SliceLo(e, lo) == [k |-> "slicelo", e |-> e, lo |-> lo]
@@ -57,11 +59,13 @@ Min(t) ==
     [] t.k = "idx" -> MinIf(t.e, Level(t.e) < 9) \o <<"[">> \o Min(t.i) \o <<"]">>
     [] t.k = "member" -> MinIf(t.e, Level(t.e) < 9) \o <<".", t.n>>
     [] t.k = "call" -> MinIf(t.e, Level(t.e) < 9) \o <<"(">> \o Min(t.a) \o <<")">>
+    [] t.k = "call0" -> MinIf(t.e, Level(t.e) < 9) \o <<"(", ")">>
+    [] t.k = "elist" -> <<"[", "]">>
     [] t.k = "slice" -> MinIf(t.e, Level(t.e) < 9) \o <<"[">> \o Min(t.lo) \o <<":">> \o Min(t.hi) \o <<"]">>
     [] t.k = "slice3" -> MinIf(t.e, Level(t.e) < 9) \o <<"[">> \o Min(t.lo) \o <<":">> \o Min(t.hi) \o <<":">> \o Min(t.c) \o <<"]">>
     [] t.k = "slicelo" -> MinIf(t.e, Level(t.e) < 9) \o <<"[">> \o Min(t.lo) \o <<":", "]">>
     [] t.k = "slicehi" -> MinIf(t.e, Level(t.e) < 9) \o <<"[", ":">> \o Min(t.hi) \o <<"]">>
-FullSub(t) == IF t.k = "leaf" THEN Full(t) ELSE P(Full(t))
+FullSub(t) == IF t.k \in {"leaf", "elist"} THEN Full(t) ELSE P(Full(t))
 Full(t) ==
   CASE t.k = "leaf" -> <<t.n>>
     [] t.k = "bin" -> FullSub(t.l) \o <<t.op>> \o FullSub(t.r)
@@ -71,6 +75,8 @@ Full(t) ==
     [] t.k = "idx" -> FullSub(t.e) \o <<"[">> \o FullSub(t.i) \o <<"]">>
     [] t.k = "member" -> FullSub(t.e) \o <<".", t.n>>
     [] t.k = "call" -> FullSub(t.e) \o <<"(">> \o FullSub(t.a) \o <<")">>
+    [] t.k = "call0" -> FullSub(t.e) \o <<"(", ")">>
+    [] t.k = "elist" -> <<"[", "]">>
     [] t.k = "slice" -> FullSub(t.e) \o <<"[">> \o FullSub(t.lo) \o <<":">> \o FullSub(t.hi) \o <<"]">>
     [] t.k = "slice3" -> FullSub(t.e) \o <<"[">> \o FullSub(t.lo) \o <<":">> \o FullSub(t.hi) \o <<":">> \o FullSub(t.c) \o <<"]">>
     [] t.k = "slicelo" -> FullSub(t.e) \o <<"[">> \o FullSub(t.lo) \o <<":", "]">>
@@ -106,6 +112,7 @@ PUnary(ts) ==
 PPostfix(ts) == LET x == PAtom(ts) IN IF x.t.k = "fail" THEN x ELSE PPostLoop(x.t, x.rest)
 PPostLoop(acc, ts) ==
   CASE Hd(ts) = "." -> IF Len(ts) >= 2 /\ ts[2] \in Names THEN PPostLoop(Member(acc, ts[2]), SubSeq(ts, 3, Len(ts))) ELSE Res(Fail, <<>>)
+    [] Hd(ts) = "(" /\ Hd(Tail(ts)) = ")" -> PPostLoop(Call0(acc), Tail(Tail(ts)))
     [] Hd(ts) = "(" -> (LET a == PExpr(Tail(ts)) IN
                         IF a.t.k = "fail" \/ Hd(a.rest) # ")" THEN Res(Fail, <<>>) ELSE PPostLoop(CallE(acc, a.t), Tail(a.rest)))
     [] Hd(ts) = "[" ->
@@ -127,6 +134,7 @@ PPostLoop(acc, ts) ==
     [] OTHER -> Res(acc, ts)
 PAtom(ts) ==
   IF Hd(ts) \in Names THEN Res(Leaf(Hd(ts)), Tail(ts))
+  ELSE IF Hd(ts) = "[" /\ Hd(Tail(ts)) = "]" THEN Res(EList, Tail(Tail(ts)))
   ELSE IF Hd(ts) = "(" THEN (LET x == PExpr(Tail(ts)) IN IF x.t.k = "fail" \/ Hd(x.rest) # ")" THEN Res(Fail, <<>>) ELSE Res(x.t, Tail(x.rest)))
   ELSE Res(Fail, <<>>)
 
